@@ -865,10 +865,19 @@ class VSetOf(Ext):
         return 0
 
 
-HARNESSES = [("model.Variable.__init__", h_defaults), ("Generator._ast_symbols_to_variables/attributes", h_attribute_copy),
+def h_expanded_elements(eng):
+    """Model._expand_vectors (reached with expand_vectors=True before the metadata function is built): every attribute
+    of every scalar element is the attribute of the array at that element's own index, whatever container holds it
+    (scalar, MX/DM matrix, nested list).  The harness is C18's contract of the same function, restricted to the
+    variable cases that are not delay states; C13 depends on its attribute obligations."""
+    from contracts import C18
+    C18.h_expand(eng, cases=[c for c in C18.CASES if not c[3]])
+
+
+HARNESSES = [("Model._expand_vectors: attributes of the scalar elements", h_expanded_elements), ("model.Variable.__init__", h_defaults), ("Generator._ast_symbols_to_variables/attributes", h_attribute_copy),
              ("Model.variable_metadata_function", h_metadata_function), ("Model._substitute_metadata", h_substitute_metadata),
              ("Model.variable_metadata_function: read, change, read", h_metadata_reread)]
-EXPECTED_COVER = {"defaults.done", "copy.done", "meta.done", "submeta.done", "reread.done"}
+EXPECTED_COVER = {"defaults.done", "copy.done", "meta.done", "submeta.done", "reread.done", "expand.done"}
 BOUNDED = True
 LEVEL = "proof"
 TRUSTED = ["pyvc VC generator", "z3 5.1.0",
